@@ -63,6 +63,19 @@ present) and their output is judged by an independent reader (gverif.refverify) 
           name with {nothing, change / delete the look-alike file, one KIND atom}: 6692 histories.  The state after
           the first generation is computed once per repository and entry point and written out afresh (files in
           sorted order) for every history; replay does the same.
+  size    FILE SIZE as a dimension (family 'size'): one ordinary file sized.{patch,eclass,dat} of S bytes in one kind
+          of directory D of the repository with every optional component (the one of family name); every other file
+          of the generated repositories is < 100 bytes, and there is never more than one sized file per repository.
+          S in SIZES_QUICK = {0, 1, 65535, 65536, 65537, 1048575, 1048576, 1048577, 2 MiB + 3} (around 0, 64 KiB, 1 MiB
+          and beyond 2 MiB), thorough + {2 MiB - 1, 2 MiB, 2 MiB + 1, 4 MiB + 1} (13); D in SIZE_DIRS_QUICK = {files/,
+          package directory, eclass, profiles, metadata/glsa} (45 repositories), thorough every one of the 19
+          NAME_DIRS (247).  Content: a seed-dependent 251-byte pattern repeated and cut to S bytes (no two 64 KiB or
+          1 MiB blocks of a file are equal).  Both entry points; oracle (1)-(4) as above - (2) is the statement's
+          "correct sizes and BLAKE2B/SHA512 digests" - and, spelled out for the sized file, check
+          recorded_size_differs: the one entry that covers it records exactly S.  Edit sets: quick {change, delete}
+          the sized file (change = append one byte), thorough any one of the 13 atoms + those two; single: quick
+          gen_fast_manifest on the eligible directory whose Manifest lists the file only, thorough the whole bottom-up
+          pass.
 """
 
 import hashlib
@@ -106,7 +119,12 @@ RULE = ('programs = runs of utils/gen_fast_metamanifest.py (one per repository s
         'with / without ebuild appears, first package directory disappears; category appears / disappears; '
         'md5-cache/<cat> appears / disappears) + the 12 other atoms, quick: <= 1 atom on 7 repositories x 2 entry '
         'points (226 histories), thorough: 73 + 14 repositories, pairs with a kind-changing atom on 9 of them '
-        '(6692 histories); '
+        '(6692 histories); family size — one file of S bytes (quick S in {0, 1, 65535, 65536, 65537, 1048575, 1048576, '
+        '1048577, 2 MiB + 3}; thorough + {2 MiB - 1, 2 MiB, 2 MiB + 1, 4 MiB + 1}) in one kind of directory (quick: '
+        'files/, package directory, eclass, profiles, metadata/glsa = 45 repositories; thorough: the 19 kinds of '
+        'family name = 247), all other files < 100 bytes, both entry points (quick: gen_fast_manifest on the '
+        'directory that lists the file; thorough: whole bottom-up pass), edit sets <= 1 of {change, delete} the '
+        'sized file (thorough: + the 13 atoms), the entry of the sized file must record exactly S; '
         'disagreement checked = one judged verdict '
         '(generator exit, gemato verify, reference coverage, quiet update, update+verify after an edit set)')
 ASSUMPTIONS = [
@@ -143,6 +161,10 @@ ASSUMPTIONS = [
     'Manifest file is the file system\'s for a fixed creation order (files of the first generation are re-created '
     'in sorted order, the second run adds its own), it is not varied; between the runs nothing but the edit set '
     'touches the tree (no gemato update in between)',
+    'family size: exactly one file per repository departs from the < 100 byte contents of gverif.repogen; sizes stop '
+    'at 4 MiB + 1 (2 MiB + 3 quick), contents are an unaligned repeating pattern (sparse / all-zero files, files '
+    'beyond 4 MiB and several big files in one directory are not generated); the file is a regular, readable file '
+    'that does not change while the scripts run',
 ]
 
 UTILS = os.environ.get('GVERIF_C20_UTILS', '/repo/utils')
@@ -339,6 +361,12 @@ def build_tree(case):
     for (kind, name), p in zip(case.get('extra') or (), extra_paths(sh, seed, case.get('extra'))):
         assert name_allowed(kind, name) and p not in tree.files and os.path.dirname(p) in tree.all_dirs() | {''}, p
         tree.files[p] = f'named like a Manifest: {kind} {name} #{seed}\n'.encode()
+    if case.get('sized'):
+        kind, size = case['sized']
+        p = sized_path(case)
+        assert p not in tree.files and os.path.dirname(p) in tree.all_dirs() | {''}, p
+        assert max(len(d) for d in tree.files.values()) < 100
+        tree.files[p] = sized_content(kind, size, seed)
     if pre is None:
         return tree
     for cat, pkg, comps in repogen.packages(sh, seed):
@@ -595,6 +623,71 @@ def rerun_shapes(tier):
     return out
 
 
+# ------------------------------------------------------------------ file size (family 'size')
+
+MiB = 1 << 20
+SIZES_QUICK = (0, 1, 65535, 65536, 65537, MiB - 1, MiB, MiB + 1, 2 * MiB + 3)
+SIZES_THOROUGH = SIZES_QUICK + (2 * MiB - 1, 2 * MiB, 2 * MiB + 1, 4 * MiB + 1)
+SIZE_DIRS_QUICK = ('files', 'pkg', 'eclass', 'profiles', 'metadata/glsa')
+
+
+def sized_name(kind):
+    return {'eclass': 'sized.eclass', 'files': 'sized.patch', 'files/sub': 'sized.patch'}.get(kind, 'sized.dat')
+
+
+def sized_content(kind, size, seed):
+    """S bytes: a 251-byte seed-dependent pattern repeated (251 is prime: no two power-of-two blocks are equal)."""
+    pat = (f'sized {kind} #{seed}\n'.encode() * 20)[:250] + b'\xff'
+    return (pat * (size // len(pat) + 1))[:size]
+
+
+def sized_extra(case):
+    """The sized file of a case in the form of an 'extra' list ([[directory kind, file name]]) or None."""
+    if not case.get('sized'):
+        return None
+    return [[case['sized'][0], sized_name(case['sized'][0])]]
+
+
+def case_extra(case):
+    return case.get('extra') or sized_extra(case)
+
+
+def sized_path(case):
+    return extra_paths(case['shape'], case['seed'], sized_extra(case))[0]
+
+
+def size_shapes(tier):
+    """-> list of ('size', shape, (directory kind, size))."""
+    sh = repogen.shape(NAME_CATS, NAME_REPO)
+    kinds = SIZE_DIRS_QUICK if tier == 'quick' else NAME_DIRS
+    sizes = SIZES_QUICK if tier == 'quick' else SIZES_THOROUGH
+    return [('size', sh, (k, s)) for k in kinds for s in sizes]
+
+
+def size_class(n):
+    return '0' if n == 0 else '<64KiB' if n < 65536 else '64KiB..1MiB' if n <= MiB else '>1MiB'
+
+
+def check_sized(case, root, rel, v, stats, out, lab, **extra):
+    """The statement's "correct sizes", spelled out for the sized file: among the entries of the reference view
+    ``v`` of the tree at ``root`` the one for the sized file (``rel``, relative to ``root``) records the size the
+    file has.  (That it is listed at all, once, with right digests is judged by (2).)"""
+    if not case.get('sized') or v.kind == 'dontcare':
+        return
+    actual = os.path.getsize(os.path.join(root, rel))
+    ent = v.entries.get(rel)
+    if ent is None:
+        label = 'not_listed'
+    else:
+        label = f'{"+".join(sorted(set(ent[0])))}/' + ('size_equal' if ent[1] == actual else 'size_differs')
+        if ent[1] != actual:
+            _v(out, case, 'recorded_size_differs', f'the entry for {rel!r} records size {ent[1]}, the file has '
+               f'{actual} bytes', size_class=size_class(actual), **extra)
+    if stats is not None:
+        stats.compared += 1
+        stats.outcomes[f'size/{lab}/{label}'] += 1
+
+
 # ------------------------------------------------------------------ parts
 
 def _v(out, case, check, msg, **extra):
@@ -603,6 +696,8 @@ def _v(out, case, check, msg, **extra):
         sig['pre'] = case['pre'].split(':')[0]          # variant class; the exact variant is in the message
     if case.get('extra'):
         sig['family'] = 'file_named_like_a_Manifest'    # which names in which directories: in the message
+    if case.get('sized'):
+        sig['family'] = 'file_size'                     # which size in which directory: in the message
     if case['part'] == 'rerun':
         sig['entry'] = case['entry']
         # what the edits between the runs did to the first package (the atoms themselves: in the message)
@@ -611,6 +706,8 @@ def _v(out, case, check, msg, **extra):
     more = ''
     if case.get('extra'):
         more += f', files named like a Manifest={extra_paths(case["shape"], case["seed"], case["extra"])}'
+    if case.get('sized'):
+        more += f', sized file={sized_path(case)} of {case["sized"][1]} bytes'
     if case['part'] == 'rerun':
         more += f', history={case["entry"]}: generate, {case["redits"] or "no edit"}, generate again'
     out.append({'sig': sig, 'case': case, 'message': f'{check} [{case["part"]}] {msg} (shape={case["shape"]}, '
@@ -658,7 +755,12 @@ def check_generated(case, root, stats, out, why=None, lab='meta'):
         ok = False
         _v(out, case, 'gemato_verify_fails', f'{gem.brief(r)} exit={r["exit"]} log={r["log"][-2:]}',
            got=gem.brief(r))
-    bad, dc = judge_reference(root, 'Manifest')
+    v = refverify.expected_verify(root, 'Manifest', '')
+    bad, dc = judge_reference(root, 'Manifest', v)
+    if case.get('sized'):
+        n0 = len(out)
+        check_sized(case, root, sized_path(case), v, stats, out, lab)
+        ok = ok and len(out) == n0
     if stats is not None:
         stats.transitions += 1
         if case.get('pre') is not None:
@@ -712,7 +814,7 @@ def check_edit(case, gen_tree, scratch, stats, out):
     root = fresh_root(scratch, 'e')
     gen_tree.write(root)
     edits = [tuple(e) for e in case['edits']]
-    if not apply_edits(root, case['shape'], case['seed'], edits, case.get('extra')):
+    if not apply_edits(root, case['shape'], case['seed'], edits, case_extra(case)):
         if stats is not None:
             stats.dontcare['(4) an edit atom has no target in this shape'] += 1
         return None
@@ -844,6 +946,13 @@ def single_pass(case, root, todo, stats, out, judge=True, lab='single'):
         for check, msg, extra in bad or []:
             all_ok = False
             _v(out, case, check, f'{d!r} ({top}): {msg}', dirclass=klass, **extra)
+        if case.get('sized') and refverify.comp_prefix(sized_path(case), d):
+            n0 = len(out)
+            check_sized(case, full, os.path.relpath(os.path.join(root, sized_path(case)), full), v, stats, out, lab,
+                        dirclass=klass)
+            if len(out) != n0:
+                all_ok = False
+                break
         if not (fv_ok and not bad):
             break
     return all_ok
@@ -858,6 +967,10 @@ def check_single(case, scratch, stats=None):
     if case.get('dirs') == 'packages':
         # the 'pre' family: the pre-existing Manifest only matters to the run on the package directory itself
         todo = [(d, klass) for d, klass in todo if klass == 'package']
+    if case.get('dirs') == 'listing':
+        # the 'size' family, quick: the run on the eligible directory whose Manifest lists the sized file (the
+        # deepest eligible directory at or above it: the pass is bottom-up)
+        todo = [(d, klass) for d, klass in todo if refverify.comp_prefix(sized_path(case), d)][:1]
     all_ok = single_pass(case, root, todo, stats, out)
     return out, all_ok
 
@@ -990,13 +1103,14 @@ def shards(tier, seed):
 
 def all_cases(tier):
     """-> [(family, shape, pre-existing-Manifest variant or None, extra files named like a Manifest or None,
-    entry point of a rerun history or None)].  New families are appended: the stride sharding keeps the older
+    entry point of a rerun history or None, (directory kind, size) of the sized file or None)].  New families are appended: the stride sharding keeps the older
     cases where they were."""
-    out = [(fam, sh, None, None, None) for fam, sh in repogen.shapes_c20(tier)]
-    out += [(fam, sh, pre, None, None) for fam, sh, pre in pre_shapes(tier)]
-    out += [(fam, sh, None, extra, None) for fam, sh, _p, extra in name_shapes(tier)]
+    out = [(fam, sh, None, None, None, None) for fam, sh in repogen.shapes_c20(tier)]
+    out += [(fam, sh, pre, None, None, None) for fam, sh, pre in pre_shapes(tier)]
+    out += [(fam, sh, None, extra, None, None) for fam, sh, _p, extra in name_shapes(tier)]
     for fam, sh, _p, extra in rerun_shapes(tier):
-        out += [(fam, sh, None, extra, entry) for entry in ('meta', 'single')]
+        out += [(fam, sh, None, extra, entry, None) for entry in ('meta', 'single')]
+    out += [(fam, sh, None, None, None, sized) for fam, sh, sized in size_shapes(tier)]
     return out
 
 
@@ -1009,6 +1123,9 @@ def case_rerun_sets(tier, sh, extra):
 
 
 def case_edit_sets(tier, fam, sh, extra=None):
+    if fam == 'size':
+        # the sized file changes (one byte appended) / disappears; thorough: or any other single atom
+        return edit_sets(1, EXTRA_ATOMS if tier == 'quick' else ATOMS + EXTRA_ATOMS)
     if fam == 'name':
         # every single atom, those aimed at the (first) file named like a Manifest included; thorough: pairs too
         # where every kind of directory holds such a file
@@ -1038,7 +1155,7 @@ def run_shard(spec, tier, seed, scratch):
     stats = Stats()
     allshapes = all_cases(tier)
     for idx in range(i, len(allshapes), n):
-        fam, sh, pre, extra, entry = allshapes[idx]
+        fam, sh, pre, extra, entry, sized = allshapes[idx]
         if fam == 'rerun':
             run_rerun_case(sh, extra, entry, tier, seed, scratch, stats)
             continue
@@ -1052,6 +1169,10 @@ def run_shard(spec, tier, seed, scratch):
             stats.counters['name/' + ('alone' if len(extra) == 1 else 'every_directory')] += 1
         if pre is not None:
             stats.counters['pre/' + pre] += 1
+        if sized:
+            stats.counters['size/dir/' + sized[0]] += 1
+            stats.counters[f'size/size/{sized[1]}'] += 1
+            stats.counters['size/repositories'] += 1
         if set(sh['repo']) >= set(repogen.C20_BASE + repogen.C20_OPT) and \
                 any(set(p) >= set(repogen.PKG) for c in sh['cats'] for p in c):
             stats.counters['repositories_with_every_optional_component'] += 1
@@ -1068,6 +1189,9 @@ def run_shard(spec, tier, seed, scratch):
         if extra:
             case['extra'] = [list(x) for x in extra]
             ckey = (ckey, 'extra', tuple(extra))
+        if sized:
+            case['sized'] = list(sized)
+            ckey = (ckey, 'sized', tuple(sized))
         out = []
         root = generate_meta(case, scratch, stats, out)
         gen_tree = check_generated(case, root, stats, out) if root is not None else None
@@ -1075,6 +1199,8 @@ def run_shard(spec, tier, seed, scratch):
         if gen_tree is not None:
             if extra:
                 stats.counters['name/generated_tree_sound'] += 1
+            if sized:
+                stats.counters['size/generated_tree_sound'] += 1
             for edits in case_edit_sets(tier, fam, sh, extra):
                 if not edits:
                     continue
@@ -1092,6 +1218,10 @@ def run_shard(spec, tier, seed, scratch):
             scase.update(pre=pre, dirs='packages')
         if extra:
             scase['extra'] = [list(x) for x in extra]
+        if sized:
+            scase['sized'] = list(sized)
+            if tier == 'quick':
+                scase['dirs'] = 'listing'
         vs, ok = check_single(scase, scratch, stats)
         stats.case(('single', ckey), nontrivial=ok)
         for x in vs:
@@ -1176,6 +1306,24 @@ def finish(total, tier):
     alone = len(pairs) if tier != 'quick' else len(NAME_DIRS)
     if c.get('name/alone', 0) < alone:
         errs.append(f'vacuity: only {c.get("name/alone", 0)} repositories with a single Manifest-like file')
+    # file size
+    want = len(size_shapes(tier))
+    if c.get('size/repositories', 0) != want or want < 40:
+        errs.append(f'vacuity: size family: {c.get("size/repositories", 0)} repositories of {want}')
+    for s in (SIZES_QUICK if tier == 'quick' else SIZES_THOROUGH):
+        if c.get(f'size/size/{s}', 0) < 3:
+            errs.append(f'vacuity: size family: size {s} in {c.get(f"size/size/{s}", 0)} directories')
+    if c.get('size/generated_tree_sound', 0) < 1:
+        errs.append('vacuity: size family: no generated repository passed (1) and (2)')
+    for lab in ('meta', 'single'):
+        classes = sorted(k for k in total.outcomes if k.startswith(f'size/{lab}/'))
+        if len(classes) < 2:
+            errs.append(f'vacuity: size family [{lab}] produced {len(classes)} outcome class(es): {classes}')
+        if sum(total.outcomes[k] for k in classes) < want:
+            errs.append(f'vacuity: size family [{lab}]: the sized file was judged in fewer than {want} runs')
+    for a in EXTRA_ATOMS:
+        if c.get(f'edit_atom/{a[0]}_{a[1]}', 0) < want // 2:
+            errs.append(f'vacuity: edit atom {a} applied {c.get(f"edit_atom/{a[0]}_{a[1]}", 0)} times')
     # generate, edit, generate again
     for entry in ('meta', 'single'):
         pre = f'rerun/{entry}/'
@@ -1202,5 +1350,5 @@ def finish(total, tier):
 
 def extra_evidence(total, tier):
     return {'space': {k: v for k, v in sorted(total.counters.items())
-                      if k.startswith(('repositories', 'programs', 'edit_sets', 'single_dir', 'pre/', 'name/', 'rerun/'))
+                      if k.startswith(('repositories', 'programs', 'edit_sets', 'single_dir', 'pre/', 'name/', 'rerun/', 'size/'))
                       and not k.startswith('name/pair/')}}
